@@ -16,20 +16,26 @@ def _ops():
     return ops
 
 
-def build(m, scale=1.0, node_order=None, delay_jitter=0.0, name='net', int_delays=False):
+def build(m, scale=1.0, node_order=None, delay_jitter=0.0, name='net', int_delays=False, share=False):
+    """share: nodes with identical kind and values are built from ONE NodeTemplate object"""
     """scale = dt_real; coefficients are divided by dt so that the Euler/Heun iterates are those of dt = 1."""
     from pyrates import NodeTemplate, CircuitTemplate
     ops = _ops()
     n = m['n']
     order = node_order or list(range(1, n + 1))
     nodes = {}
+    shared = {}
     for i in order:
         op = ops[m['kind'][i - 1]]
         over = {'c': m['c'][i - 1] / scale, 'a': m['a'][i - 1] / scale, 'x': float(m['x0'][i - 1])}
         if m['kind'][i - 1] == 5:
             sd = m['sd'][i - 1]
             over.update(kd=sd['k'] / scale, taud=(sd['lag'] + delay_jitter) * scale)
-        nodes[f'n{i}'] = NodeTemplate(f'n{i}', operators={op: over})
+        key = (m['kind'][i - 1], tuple(sorted(over.items())))
+        if share and key in shared:
+            nodes[f'n{i}'] = shared[key]
+        else:
+            nodes[f'n{i}'] = shared[key] = NodeTemplate(f'n{i}', operators={op: over})
     edges = []
     for e in m['edges']:
         attr = {'weight': e['w'] / scale}
